@@ -77,6 +77,9 @@ func (m *Machine) decideBool(c *Term, why string) bool {
 	}
 	m.budgetDecision()
 	m.res.Decisions++
+	if whyLog != nil {
+		whyLog(m, why)
+	}
 	nc := m.tf.Not(c)
 	const (
 		unk = iota
